@@ -52,3 +52,16 @@ chk('C06', 'exploration',
     'runtime monitoring: reference-definition oracle over exhaustively '
     'enumerated small arrays and random arrays, metamorphic position checks',
     'DESIGN.md section 4 (C06)')
+chk('C07', 'exploration',
+    'Statistic, degrees of freedom, p-value and verdict of thousands of '
+    'generated chi-square comparisons (arbitrary zero-error patterns, both '
+    'option values, NaN/inf with the option off, 1-3 datasets, shapes () to '
+    '4-d) are compared with math.fsum of the per-bin terms, the count of used '
+    'bins and the upper tail Q(k/2,x/2) (scipy.special; mpmath on a sample and '
+    'near the level); each statistic is re-evaluated on a random permutation '
+    'of the bins.',
+    'scipy.special.gammaincc / mpmath trusted as the law; statistic compared '
+    'at rel. 1e-9; relative band of 1e-6 around alpha not decided',
+    'runtime monitoring: independent recomputation oracle + permutation '
+    'metamorphic relation over generated comparisons',
+    'DESIGN.md section 4 (C07)')
